@@ -174,19 +174,22 @@ def o1(h, st):
 
 
 @contract("C16", "O1b.FermionOperator.scalar", level="S", native_samples=coef_samples,
-          structures=lambda tier: [{"a": s, "op": op, "side": side} for s in ([0], [0, 3], [2, 4]) for op in ("add", "sub", "mul", "truediv", "neg") for side in ("left", "right")
-                                   if not (op in ("truediv", "neg") and side == "right")],
+          structures=lambda tier: [{"a": s, "op": op, "side": side, "k": k} for s in ([0], [0, 3], [2, 4]) for op in ("add", "sub", "mul", "truediv", "neg") for side in ("left", "right")
+                                   for k in ("2.0", "0", "0.0", "1", "1.0", "np0", "-1")
+                                   if not (op in ("truediv", "neg") and side == "right") and not (op == "neg" and k != "2.0") and not (op == "truediv" and k in ("0", "0.0", "np0"))],
           targets=[(OP, "FermionOperator.__add__"), (OP, "FermionOperator.__radd__"), (OP, "FermionOperator.__sub__"), (OP, "FermionOperator.__rsub__"),
                    (OP, "FermionOperator.__mul__")])
 def o1b(h, st):
-    """scalar forms with the operator on either side (a+2, 2+a, a-2, 2-a, a*2, 2*a, a/2, -a): correct value, operand unchanged"""
+    """scalar forms with the operator on either side (a+k, k+a, a-k, k-a, a*k, k*a, a/k, -a; k generic and the NEUTRAL elements 0, 0.0, numpy 0, 1, 1.0, and -1): correct value,
+    operand unchanged, the result is a NEW object also when it has the operand's value (an in-place update of the result does not reach the operand)"""
     ca = [h.real(f"a{i}") for i in range(len(st["a"]))]
     for c in ca:
         h.assume(abs(c) > 0.01)
     a = mk_fermion("tangelo", st["a"], ca)
     sa = state(a)
     ta = dict(a.terms)
-    k = 2.0
+    import numpy as _np
+    k = {"2.0": 2.0, "0": 0, "0.0": 0.0, "1": 1, "1.0": 1.0, "np0": _np.float64(0), "-1": -1}[st.get("k", "2.0")]
     op = st["op"]
     if op == "neg":
         import ast
@@ -206,7 +209,11 @@ def o1b(h, st):
             exp = {t: c / k for t, c in ta.items()}
     h.check("operand unchanged", state(a) == sa)
     h.check("result is a new object", r is not a)
+    h.check("result shares no term dictionary with the operand", r.terms is not a.terms)
     check_terms(h, f"{op}/{st['side']}", dict(r.terms), exp)
+    if type(r).__name__ == "FermionOperator" and hasattr(r, "n_spinorbitals"):
+        h.call(OP, "FermionOperator.__imul__", r, 3.0)
+        h.check("in-place update of the result leaves the operand unchanged", state(a) == sa)
     h.done()
 
 
